@@ -1,6 +1,7 @@
 import Gonnx.Model
 import Gonnx.Theorems.C03
 import Gonnx.Theorems.C07
+import Gonnx.Theorems.C09
 import Gonnx.Theorems.C12
 import Gonnx.Theorems.C13
 import Gonnx.Theorems.C14
